@@ -11,10 +11,11 @@ import (
 // function has been executed symbolically:
 //   - a site clause whose (callee, ordinal) does not exist in the function is a
 //     stale anchor (spec error, the check is broken - never a silent pass);
-//   - "cover" rule: when a contract annotates at least one call of an interface
-//     method M ("invoke M") with a ghost update or an assumption - i.e. it
-//     models the effect of M on ghost state - every call of M in that function
-//     must be annotated; an unannotated one would leave the ghost state stale.
+//   - "cover" rule: when a contract annotates at least one call of a callee K
+//     with a ghost update or an assumption - i.e. it counts the calls of K or
+//     models its effect on ghost state - every call of K in that function must
+//     be annotated; an unannotated one would leave the ghost state stale. This
+//     is an obligation of its own ("cover(K)"), decided on the SSA.
 func (f *frame) checkSiteAnchors() {
 	sp := f.spec
 	if sp == nil || len(sp.Sites) == 0 {
@@ -29,7 +30,8 @@ func (f *frame) checkSiteAnchors() {
 	modelled := map[string]bool{}
 	covered := map[string]map[int]bool{}
 	for _, s := range sp.Sites {
-		if len(s.Callee) > 7 && s.Callee[:7] == "invoke " && (s.Kind == "ghost" || s.Kind == "assume") {
+		// a callee whose calls the contract counts or models on ghost state
+		if s.Kind == "ghost" || s.Kind == "assume" {
 			modelled[s.Callee] = true
 		}
 		if covered[s.Callee] == nil {
@@ -59,11 +61,16 @@ func (f *frame) checkSiteAnchors() {
 	}
 	sort.Strings(keys)
 	for _, k := range keys {
+		// one obligation per modelled callee: every call of it is annotated
+		// (decided on the SSA; it is in the baseline, so a new unannotated call
+		// - which would leave the ghost history stale - is reported)
+		goal := True
 		for i := 1; i <= count[k]; i++ {
 			if !covered[k][i] {
-				f.c.warn = append(f.c.warn, fmt.Sprintf("SPEC-ERROR %s: call %d of %s is not annotated although the contract models %s on ghost state", sp.Key, i, k, k))
-				f.c.specErrors++
+				goal = False
+				f.c.warn = append(f.c.warn, fmt.Sprintf("%s: call %d of %s is not annotated although the contract models %s on ghost state", sp.Key, i, k, k))
 			}
 		}
+		f.emit("cover", f.oblName("cover("+k+")"), True, goal, f.fn.Pos(), nil)
 	}
 }
